@@ -12,6 +12,7 @@ import (
 	"sync/atomic"
 	"time"
 
+	"github.com/IBM/TSS/msg"
 	tss "github.com/IBM/TSS/types"
 
 	"verifharness/backend"
@@ -39,7 +40,7 @@ func jitter(seed int64) func(simnet.Link) {
 func unitC20core(e common.Env, p *common.Part) {
 	p.Rule = "race-detector build; real Loud/Silent schemes with scripted backends on the simulated network in concurrent mode (one dispatcher goroutine per link, PRNG micro-delays of 20..150 us and yields); scenarios: staggered first calls (peers' traffic reaches a node before and while its first KeyGen/Sign sets up), duplicated transmissions, 2-3 sessions at once on different topics, SetStoredData followed by Sign from another goroutine, cancelled sessions followed by new ones; repeated because reports vary per run; distinct key = (scenario, repetition, delivery-order hash); non-trivial when >=2 dispatcher goroutines were active"
 	reps := e.Pick(12, 120)
-	scen := []string{"staggered-keygen-loud", "staggered-keygen-silent", "sign-concurrent-topics", "duplicates", "setdata-then-sign", "cancel-then-retry"}
+	scen := []string{"staggered-keygen-loud", "staggered-keygen-silent", "sign-concurrent-topics", "duplicates", "setdata-then-sign", "cancel-then-retry", "msgbox-with-ticking-clock"}
 	idx := 0
 	for r := 0; r < reps; r++ {
 		for _, sc := range scen {
@@ -62,13 +63,16 @@ func unitC20core(e common.Env, p *common.Part) {
 }
 
 func runC20core(sc string, rep int, rng *rand.Rand) (string, int) {
+	if sc == "msgbox-with-ticking-clock" {
+		return runC20box(rep, rng)
+	}
 	n := 3 + rep%2
 	var ids []uint16
 	for i := 1; i <= n; i++ {
 		ids = append(ids, uint16(i))
 	}
 	silent := sc == "staggered-keygen-silent" || (sc == "sign-concurrent-topics" && rep%2 == 1)
-	c := cluster.New(cluster.Config{Map: identityMapC(ids), Silent: silent, Threshold: n - 1, Script: backend.Script{Rounds: []uint8{1, 2}, Bcast: true, P2P: true}})
+	c := cluster.New(cluster.Config{Map: identityMapC(ids), Silent: silent, Threshold: n - 1, Script: backend.Script{Rounds: []uint8{1, 2}, Bcast: true, P2P: true}, FastBoxClock: 150 * time.Microsecond})
 	c.Net.KeepData = false
 	c.Net.Jitter = jitter(rng.Int63())
 	c.Net.StartConcurrent()
@@ -167,4 +171,36 @@ func identityMapC(ids []uint16) map[uint16]uint16 {
 		m[i] = i
 	}
 	return m
+}
+
+// runC20box: a real msg.Box whose GC clock ticks every 100 us while several goroutines receive and send on a few topics.
+func runC20box(rep int, rng *rand.Rand) (string, int) {
+	h := &recHandler{}
+	b := &msg.Box{Logger: common.Nolog{}, MaxInFlightTopicsBySender: 50, GCSweep: 100 * time.Microsecond, GCExpire: 400 * time.Microsecond, NewTicker: time.NewTicker,
+		ForwardSend: func(uint8, []byte, []byte, ...tss.UniversalID) {}, MessageHandler: h}
+	var wg sync.WaitGroup
+	workers := 4 + rep%3
+	for w := 0; w < workers; w++ {
+		w := w
+		seed := rng.Int63()
+		wg.Add(1)
+		go func() {
+			defer wg.Done()
+			r := rand.New(rand.NewSource(seed))
+			for i := 0; i < 300; i++ {
+				t := topic32(fmt.Sprintf("t%d", r.Intn(6)))
+				if r.Intn(4) == 0 {
+					b.Send(uint8(tss.MsgTypeMPC), t, []byte("out"), 9)
+				} else {
+					b.HandleMessage(&tss.IncMessage{MsgType: uint8(tss.MsgTypeMPC), Topic: t, Source: uint16(10 + w), Data: []byte{byte(i)}})
+				}
+				if i%40 == 0 {
+					time.Sleep(150 * time.Microsecond)
+				}
+			}
+		}()
+	}
+	wg.Wait()
+	b.Stop()
+	return fmt.Sprintf("box-%d", rep), workers
 }
